@@ -105,7 +105,9 @@ func TestC12(t *testing.T) {
 		r.Count("chains", 1)
 		r.Count("chains.field."+fc.name, 1)
 		r.Count("chain.ops", len(p.ops))
-		r.SampleClass("chain:"+fc.name, map[string]any{"program": firstLines(p.Text(), 40)})
+		if j.idx == 1 && (fc.name == "Secp256k1Fp" || fc.name == "custom:4099/2x8") {
+			r.SampleClass("chain:"+fc.name, map[string]any{"program": firstLines(p.Text(), 40)})
+		}
 		nats := []native{natives[0], natives[1+j.idx%2]}
 		for _, nt := range nats {
 			where := "engine/" + nt.name
@@ -178,6 +180,57 @@ func TestC12(t *testing.T) {
 					r.Eval(label+"|"+where+"|neg|"+neg.negative, true)
 					judge(r, neg, nres, where, replayOf(neg, map[string]any{"engine": where}))
 				}
+			}
+		}
+	})
+
+	// ---- 1b. boundary chains: operand sizes placed at the reduction threshold of each native field ----
+	type bJob struct {
+		fc  *fieldCase
+		nt  native
+		idx int
+	}
+	var bjobs []bJob
+	for _, fc := range cases {
+		for _, nt := range natives {
+			for i := 0; i < r.Pick(5, 60); i++ {
+				bjobs = append(bjobs, bJob{fc, nt, i})
+			}
+		}
+	}
+	vcore.Parallel(len(bjobs), workers, func(k int) {
+		j := bjobs[k]
+		rng := r.Rand(fmt.Sprintf("boundary/%s/%s/%d", j.fc.name, j.nt.name, j.idx))
+		p := genBoundaryProgram(rng, j.fc, j.nt.field.BitLen())
+		cr := j.fc.newChain(p)
+		where := "engine/" + j.nt.name
+		label := fmt.Sprintf("boundary|%s|%s|%d", j.fc.name, j.nt.name, j.idx)
+		res := cr.Engine(j.nt.field, p)
+		r.Eval(label+"|honest", true)
+		r.Count("boundary-chains", 1)
+		judge(r, p, res, where, replayOf(p, map[string]any{"engine": where, "kind": "boundary chain"}))
+		if res.rec != nil {
+			noteMax("overflow.max."+j.nt.name+"/w="+fmt.Sprint(j.fc.w), res.rec.maxOverflow)
+			if res.rec.maxOverflow+1 >= uint(j.nt.field.BitLen()-2)-j.fc.w {
+				r.Count("boundary-chains.overflow-reached-maxOverflow", 1)
+			}
+		}
+		r.SampleClass("boundary-chain", map[string]any{"native": j.nt.name, "program": firstLines(p.Text(), 30)})
+		if neg := mutateExpected(rng, p); neg != nil {
+			nres := cr.Engine(j.nt.field, neg)
+			r.Eval(label+"|neg", true)
+			judge(r, neg, nres, where, replayOf(neg, map[string]any{"engine": where}))
+		}
+		if j.idx == 0 && j.nt.name != "bw6-761" && !j.fc.heavy {
+			b := []string{"r1cs", "scs"}[len(j.fc.name)%2]
+			where := b + "/" + j.nt.name
+			if c, err := cr.Compile(j.nt.field, b, p); err == nil {
+				r.Count("compiled."+where, 1)
+				res := cr.Solve(c, j.nt.field, p)
+				r.Eval(label+"|"+where, true)
+				judge(r, p, res, where, replayOf(p, map[string]any{"engine": where, "kind": "boundary chain"}))
+			} else {
+				r.Count("robustness.compile-failed."+where+":"+compileCulprit(err), 1)
 			}
 		}
 	})
@@ -273,6 +326,13 @@ func TestC12(t *testing.T) {
 	}
 	r.Set("max_overflow_seen", mo)
 	r.Set("max_overflow_allowed", "native bits - 2 - limb width")
+	proofsMu.Lock()
+	sort.Slice(proofs, func(i, j int) bool { return fmt.Sprint(proofs[i]["field"], proofs[i]["engine"]) < fmt.Sprint(proofs[j]["field"], proofs[j]["engine"]) })
+	if len(proofs) > 6 {
+		proofs = proofs[:6]
+	}
+	r.Set("real_prover_confirmations(false statement proved and verified)", proofs)
+	proofsMu.Unlock()
 
 	r.Require("chains", 50)
 	r.Require("slots.checked.elem", 1000)
@@ -280,6 +340,7 @@ func TestC12(t *testing.T) {
 	r.Require("slots.checked.bool", 10)
 	r.Require("chains.with-automatic-reduction", 20)
 	r.Require("chains.overflow-reached-maxOverflow", 10)
+	r.Require("boundary-chains.overflow-reached-maxOverflow", 50)
 	r.Require("negative.rejected.engine/bn254", 50)
 	r.Require("compiled.r1cs/bn254", 10)
 	r.Require("compiled.scs/bn254", 10)
@@ -430,7 +491,11 @@ func runAdv(r *vcore.Run, fc *fieldCase, kind, builder string, nt native) {
 	}
 }
 
-var confirmOnce sync.Map
+var (
+	confirmOnce sync.Map
+	proofsMu    sync.Mutex
+	proofs      []map[string]any
+)
 
 // confirmWithProvers pushes one accepted false statement per (field, builder)
 // through the real prover and verifier: the false claim E is a public input.
@@ -482,6 +547,9 @@ func confirmWithProvers(r *vcore.Run, fc *fieldCase, where, builder string, ccs 
 		r.Count("adv.prover-confirmation.panic", 1)
 	case verr == nil:
 		r.Count("adv.prover-confirmation.PROOF-OF-FALSE-STATEMENT-VERIFIES."+builder, 1)
+		proofsMu.Lock()
+		proofs = append(proofs, map[string]any{"field": fc.name, "engine": where, "backend": map[string]string{"r1cs": "groth16", "scs": "plonk"}[builder], "lie": sc.name, "A": str(sc.in.A), "B": str(sc.in.B), "E_public": str(sc.in.E), "false_claim": sc.why, "verify": "accepted"})
+		proofsMu.Unlock()
 		r.SampleClass("proof-of-false-statement:"+builder, map[string]any{"field": fc.name, "engine": where, "lie": sc.name, "false_claim": sc.why, "A": str(sc.in.A), "B": str(sc.in.B), "E(public)": str(sc.in.E),
 			"backend": map[string]string{"r1cs": "groth16", "scs": "plonk"}[builder], "verify": "accepted"})
 	default:
